@@ -90,6 +90,8 @@ def compare(vec, line, v, pid, what, extra_key=""):
         v.violation("%s kind=%s" % (key_base, kind), desc,
                     {"vector": vec, "observed": {"status": status, "ret": ret, "rc": rc, "out": out, "post": post, "canary": canary}, "where": what})
         return False
+    if status == "skipped":
+        return True                       # the executor's watchdog budget was used up: earlier commands carry the report
     if status.startswith("fault") or status.startswith("crash"):
         return rep("fault", "%s: the call faulted (%s: signal:offset relative to the buffer) - expected bytes %s" % (what, status, hexs(vec["post"])))
     if status != "ok":
@@ -266,6 +268,7 @@ def finish_events(evs, outs, v, pid):
         if t[0] != "R": raise Infra("bad executor answer " + line[:100])
         status, ret, rc, out, post, canary = t[1], t[2], int(t[3]), t[4], t[5], t[6]
         key = "view=%s op=%s path=%s field=%s" % (ev["view"], ev["op"], ev["path"], ev["field"] or ev["id"] or "-")
+        if status == "skipped": continue
         if status.startswith("fault") or status.startswith("crash"):
             v.violation(key + " kind=fault", "random call faulted (%s)" % status, {"event": ev, "status": status}); continue
         if status != "ok": raise Infra("executor status " + status)
